@@ -29,6 +29,6 @@ def check(ctx: Ctx) -> str:
     from . import c13
     from . import c25
 
-    ctx.run_imported("C13", {"R6"}, c13.check)
+    ctx.run_imported("C13", {"R6", "R1"}, c13.check)
     ctx.run_imported("C25", {"R4"}, c25.check)
     return __doc__ or ""
